@@ -52,6 +52,7 @@ Definition spec_C19 (i : winput) (o : obs_C19) : bool :=
       match o with Ok (ts, cat, mo) => defaults_ok ts cat mo | _ => true end
   | WSub _ _ _ => true                   (* sub_ontology ends in build_minimal: no defaults *)
   | WBulk _ _ _ _ => true                (* generated for C03 only *)
+  | WMany _ _ _ _ => true                (* generated for C10 only; build_minimal *)
   | WBuilder s =>
       match builder_defaults (fst i) with
       | None => true                       (* build_minimal: no defaults requested *)
